@@ -53,6 +53,9 @@ def dist_case(draw, tier):
         k2 = [list(k) for k in draw(st.lists(st.tuples(*[st.integers(0, 6)] * T), min_size=1, max_size=4, unique=True))]
         c["then"] = {"route": draw(st.sampled_from(["setter", "inplace", "convert", "empirical_reload"])),
                      "keys": k2, "weights": [draw(st.integers(1, 9)) for _ in k2], "N": draw(st.sampled_from([1, 4, 20]))}
+        if draw(st.booleans()):
+            # ... and the motif sizes are re-configured through the public setter (any order, the vector is positional)
+            c["then"]["sizes"] = [draw(st.integers(1, 5)) for _ in range(T)]
     return c
 
 
@@ -192,7 +195,12 @@ def check(case):
         if set(got_d) != set(new) or any(abs(got_d[k] - float(new[k])) > 1e-9 * max(1.0, abs(float(new[k]))) for k in new):
             raise Violation("distribution-replacement", f"after replacing the distribution through '{route}' the loader holds "
                                                         f"{got_d}, expected {new}")
+        if th.get("sizes"):
+            ld.motif_sizes = list(th["sizes"])
+            sizes = list(th["sizes"])
         info2 = verify(ld, new, sizes, th["N"], case["seed"] + 1, tag="after-replacing-distribution:")
+        if th.get("sizes"):
+            info["classes"] = sorted(set(info["classes"]) | {"motif_sizes_through_setter"})
         info["classes"] = sorted(set(info["classes"]) | {"history_" + route})
         info["nontrivial"] = info["nontrivial"] or info2["nontrivial"]
     return info
